@@ -216,6 +216,10 @@ def error_discipline(ctx, rid, fns, ignore=None, soft_ok=None):
             if callee is None:
                 continue
             n += 1
+            if e.get('disc') and always_fails(prog, callee):
+                ctx.inst(rid, f.where(e), '%s always returns failure (message helper); its value '
+                         'carries no information, discarded in %s' % (nm, f.name))
+                continue
             if e.get('disc'):
                 key = (f.name, nm)
                 ctx.check(rid, key in ignore, f.name, 'discarded:%s' % nm, f.where(e),
@@ -490,3 +494,144 @@ def every_iteration_passes(ctx, rid, f, loop, is_through, what, construct):
               '%s — every iteration of the loop over %s in %s' % (what, loop.get('bound'), f.name),
               witness=None if ok else {'back_edge_from_block': hit[0]})
     return ok
+
+
+# ---- template X ----------------------------------------------------------------------------------
+
+def is_success_return(prog, f, x):
+    """A return that does not provably report failure."""
+    return x['k'] == 'ret' and ret_value_class(prog, f, x) != 'fail'
+
+
+def reject_if(ctx, rid, f, pred, pol, what, construct, success=None, min_edges=1, until=None):
+    """RejectIf: there is a branch on an atom satisfying pred, and from its successor with the
+    given polarity no path reaches a success return (path-sensitive).  `success` overrides what
+    counts as accepting (default: any return that is not a provable failure value); `until`
+    marks events after which the obligation is over (e.g. the flag under test is set)."""
+    prog = ctx.prog
+    succ_pred = success or (lambda x: is_success_return(prog, f, x))
+    edges = []
+    for bid, b in f.blocks.items():
+        for i, s in enumerate(b['succ']):
+            if s is None:
+                continue
+            ef = f.edge_fact(bid, i)
+            if ef and ef[1] == pol and pred(ef[2]):
+                edges.append((bid, i, s, ef))
+    if len(edges) < min_edges:
+        ctx.violation(rid, f.name, construct + ':guard-absent', f.loc,
+                      '%s — no branch on that condition is left in %s' % (what, f.name))
+        return False
+    ok = True
+    for bid, i, s, ef in edges:
+        r = f.find_path(None, succ_pred, from_succ=s, init_facts=[(ef[0], ef[1])],
+                        is_blocker=lambda x: (x['k'] == 'ret' and not succ_pred(x)) or
+                        (until is not None and until(x)))
+        line = f.blocks[bid].get('term', {}).get('line', f.line)
+        ok &= ctx.check(rid, r is None, f.name, construct, 'src/%s:%s' % (f.file, line),
+                        '%s — when %s%s, %s cannot return success' % (
+                            what, '' if pol else '!', ef[0][:90], f.name),
+                        witness=None if r is None else {'blocks': r[0], 'reaches': r[1].get('src')})
+    return ok
+
+
+# ---- canonicalise before intern --------------------------------------------------------------------
+
+INTERN = ('State::GetNode', 'State::LookupNode', 'State::AddIn', 'State::AddOut',
+          'State::AddValidation', 'State::AddDefault')
+
+
+def canon_before_intern(ctx, rid, f, exempt=None):
+    """Every string variable handed to State::GetNode/LookupNode/AddIn/AddOut/AddValidation/
+    AddDefault in f passes CanonicalizePath on every path from its definition."""
+    n = 0
+    for e in f.events('call'):
+        if e.get('name') not in INTERN:
+            continue
+        # the path argument: first std::string / StringPiece argument
+        parg = None
+        for a in e.get('args', []):
+            vs = [x for x in walk(a) if x.get('k') == 'var' and
+                  ('string' in (x.get('ty') or '') or 'StringPiece' in (x.get('ty') or ''))]
+            if vs:
+                parg = vs[0]
+                break
+        if parg is None:
+            key = (f.name, e.get('name'))
+            ok = exempt is not None and key in exempt
+            ctx.check(rid, ok, f.name, 'intern-non-variable:%s' % e.get('name'), f.where(e),
+                      'path given to %s in %s is a tracked variable%s' % (
+                          e.get('name'), f.name, (' (exempt: %s)' % exempt[key]) if ok else ''))
+            continue
+        v = parg['n']
+        n += 1
+        defs = [x for x in f.events() if (x['k'] == 'decl' and x['n'] == v) or
+                (x['k'] == 'asg' and mentions_var(x['l'], v) and strip(x['l']).get('k') == 'var')]
+        if parg.get('vk') == 'param':
+            defs = []
+            start_entry = True
+        else:
+            start_entry = False
+
+        def is_canon(x):
+            return x['k'] == 'call' and x.get('name') == 'CanonicalizePath' and \
+                any(mentions_var(a, v) for a in x.get('args', []))
+        bad = None
+        if start_entry:
+            bad = f.find_path(None, lambda x: x is e, is_blocker=is_canon, from_succ=f.entry)
+        for d in defs:
+            if not f.ev_reaches(d, e):
+                continue
+            r = f.find_path(d, lambda x: x is e, is_blocker=lambda x: is_canon(x) or
+                            (x is not d and x in defs))
+            if r is not None:
+                bad = r
+        key = (f.name, e.get('name'))
+        if bad is not None and exempt is not None and key in exempt:
+            ctx.inst(rid, f.where(e), '%s in %s not canonicalised here (exempt: %s)' % (
+                e.get('name'), f.name, exempt[key]))
+            continue
+        ctx.check(rid, bad is None, f.name, 'intern-without-canonicalize:%s:%s' % (e.get('name'), v),
+                  f.where(e), '`%s` passes CanonicalizePath before %s in %s' % (v, e.get('name'), f.name),
+                  witness=None if bad is None else {'blocks': bad[0]})
+    return n
+
+
+def skip_conditions_exact(ctx, rid, f, loop, is_action, allowed_skip, what, construct):
+    """In every iteration of `loop` the action event is reached unless the iteration is left
+    through one of the allowed skip conditions [(pred, polarity)]; any other way around the
+    action is a violation."""
+    hdr = loop['header']
+    hit = [None]
+
+    def edge_ok(b, i, s):
+        ef = f.edge_fact(b, i)
+        if ef:
+            for pred, pol in allowed_skip:
+                if ef[1] == pol and pred(ef[2]):
+                    return False
+        if s == hdr:
+            hit[0] = b
+            return False
+        return True
+    f.find_path(None, lambda x: False, is_blocker=lambda x: is_action(x) or x['k'] == 'ret',
+                from_succ=loop['body'], edge_ok=edge_ok)
+    ok = hit[0] is None
+    ctx.check(rid, ok, f.name, construct, 'src/%s:%s' % (f.file, loop['line']),
+              '%s — in %s' % (what, f.name),
+              witness=None if ok else {'back_edge_from_block': hit[0]})
+    return ok
+
+
+def reached_only_via(ctx, rid, f, e, pred, pol, what, construct):
+    """Event e is reachable from the function entry only through a branch edge whose condition
+    satisfies pred with the given polarity (structural guard; unlike guard facts this is not
+    affected by later writes)."""
+    def edge_ok(b, i, s):
+        ef = f.edge_fact(b, i)
+        return not (ef and ef[1] == pol and pred(ef[2]))
+    r = f.find_path(None, lambda x: x is e, from_succ=f.entry, edge_ok=edge_ok, sensitive=False)
+    ctx.check(rid, r is None, f.name, construct, f.where(e),
+              '%s — `%s` in %s' % (what, e.get('src', e.get('name', ''))[:70], f.name),
+              witness=None if r is None else {'blocks': r[0]})
+    return r is None
